@@ -63,6 +63,8 @@ func NewSubscriptionManager(
 		whenCtx:     map[context.Context][]*WhenBinding{},
 		whenTimeCtx: map[context.Context][]*WhenTimeBinding{},
 		whenArgsCtx: map[context.Context][]*WhenArgsBinding{},
+
+		whenQueryCtx: map[context.Context][]*whenQueryBinding{},
 	}
 }
 
@@ -440,7 +442,7 @@ func (sm *Subscriptions) processWhenQueryCtx() []chan struct{} {
 		}
 
 		// delete the ctx and all the bindings
-		delete(sm.whenArgsCtx, ctx)
+		delete(sm.whenQueryCtx, ctx)
 		for _, binding := range bindings {
 			sm.gcWhenQueryBinding(binding, false)
 			ret = append(ret, binding.ch)
